@@ -150,6 +150,44 @@ deriving DecidableEq, Repr, Inhabited
 /-- numerals denote integer values -/
 instance (n : Nat) : OfNat Val n := ⟨.int (Int.ofNat n)⟩
 
+/-! ### `numpy.lib.Arrayterator`
+
+  `wrap_arrayterator` puts the data of every array behind an `Arrayterator`; a hyperslab is applied by
+  `Arrayterator.__getitem__`, which does not index the data: it returns a new `Arrayterator` over the *same* underlying
+  array with other `start` / `stop` / `step` lists.  A second hyperslab on the same variable (`?a[1:2:7],a[1:2:7]`) is
+  composed with the first one by that method — as numpy implements it, which is numpy's `x[s1][s2]` only when the
+  first stride is 1 (`Proofs/Arrayterator.lean`). -/
+
+/-- `start[i]`, `stop[i]`, `step[i]` of an `Arrayterator` (Python ints) -/
+structure Win where
+  start : Int
+  stop : Int
+  step : Int
+deriving DecidableEq, Repr, Inhabited
+
+/-- `Arrayterator.__init__` on an axis of length `n` -/
+def Win.fresh (n : Nat) : Win := ⟨0, n, 1⟩
+
+/-- one axis of `Arrayterator.__getitem__`:
+    `out.start[i] = start + (slice_.start or 0)`; `out.step[i] = step * (slice_.step or 1)`;
+    `out.stop[i] = min(stop, start + (slice_.stop or stop - start))` — the offsets of the new slice are
+    *not* multiplied by the stride already in place -/
+def Win.get (w : Win) (s : PSlice) : Win :=
+  ⟨w.start + orElse s.start 0, min w.stop (w.start + orElse s.stop (w.stop - w.start)), w.step * orElse s.step 1⟩
+
+/-- one entry of `Arrayterator.shape`: `(stop - start - 1) // step + 1` (floor division) -/
+def Win.count (w : Win) : Nat := ((w.stop - w.start - 1).fdiv w.step + 1).toNat
+
+/-- the positions `Arrayterator.__array__` reads on an axis of length `N`: `var[start:stop:step]` (numpy) -/
+def Win.pos (N : Nat) (w : Win) : List Nat := sel N ⟨some w.start, some w.stop, some w.step⟩
+
+/-- an `Arrayterator`: the underlying array (shape, row-major values) and one window per axis -/
+structure View where
+  shape : List Nat
+  data : List Val
+  win : List Win
+deriving DecidableEq, Repr, Inhabited
+
 structure Base where
   name : Str
   ty : Str            -- DAP2 type name as printed
@@ -157,6 +195,10 @@ structure Base where
   dims : List Str
   data : List Val     -- row-major
   kind : DataKind := .arr
+  /-- `none`: the data as the handler got it (a fresh `Arrayterator` is put around it);
+      `some v`: the `Arrayterator` an earlier hyperslab of the same request left in `var.data`
+      (`shape` / `data` above are then what it announces / yields) -/
+  view : Option View := none
 deriving DecidableEq, Repr, Inhabited
 
 /-- a member of a top-level Structure: an array, or a Structure of arrays -/
@@ -191,7 +233,27 @@ def prod : List Nat → Nat
   | [] => 1
   | n :: ns => n * prod ns
 
-def Base.WF (b : Base) : Prop := b.data.length = prod b.shape ∧ b.kind = .arr
+/-- a window that lies inside an axis of length `n`, stride ≥ 1 (`start = stop`: the empty axis) -/
+def Win.OK (n : Nat) (w : Win) : Prop := 0 ≤ w.start ∧ w.start ≤ w.stop ∧ w.stop ≤ n ∧ 1 ≤ w.step
+
+instance (n : Nat) (w : Win) : Decidable (w.OK n) := by unfold Win.OK; exact inferInstance
+
+/-- an `Arrayterator` whose windows lie inside its array and whose `shape` is the one the variable shows -/
+def View.OK (v : View) (shape : List Nat) : Prop :=
+  v.data.length = prod v.shape ∧ v.win.length = v.shape.length ∧
+  (∀ p ∈ List.zip v.shape v.win, p.2.OK p.1) ∧ shape = v.win.map Win.count
+
+instance (v : View) (sh : List Nat) : Decidable (v.OK sh) := by unfold View.OK; exact inferInstance
+
+def Base.viewOK (b : Base) : Prop :=
+  match b.view with
+  | none => True
+  | some v => v.OK b.shape
+
+instance (b : Base) : Decidable b.viewOK := by
+  unfold Base.viewOK; cases b.view <;> exact inferInstance
+
+def Base.WF (b : Base) : Prop := b.data.length = prod b.shape ∧ b.kind = .arr ∧ b.viewOK
 
 instance (b : Base) : Decidable b.WF := by unfold Base.WF; exact inferInstance
 
@@ -206,6 +268,25 @@ def Var.WF : Var → Prop
   | .seq _ cols rows => ∀ r ∈ rows, r.length = cols.length
 
 def Dataset.WF (ds : Dataset) : Prop := ∀ v ∈ ds.vars, v.WF
+
+/-! ### what the responses see
+
+  The printers read `shape` and `data` only; the `Arrayterator` bookkeeping matters to a further hyperslab of the same
+  request and to nothing else.  `shown` forgets it. -/
+
+def Base.shown (b : Base) : Base := { b with view := none }
+
+def Member.shown : Member → Member
+  | .base b => .base b.shown
+  | .struct n bs => .struct n (bs.map Base.shown)
+
+def Var.shown : Var → Var
+  | .base b => .base b.shown
+  | .struct n ms => .struct n (ms.map Member.shown)
+  | .grid n a ms => .grid n a.shown (ms.map Base.shown)
+  | .seq n cols rows => .seq n cols rows
+
+def Dataset.shown (ds : Dataset) : Dataset := { ds with vars := ds.vars.map Var.shown }
 
 /-! ### hyperslabs on row-major data -/
 
@@ -226,13 +307,24 @@ def selND : List Nat → List (List Nat) → List Val → List Val
 def padSl (rank : Nat) (sl : List PSlice) : List PSlice :=
   sl ++ List.replicate (rank - sl.length) PSlice.all
 
+/-- `var.data` of an array as `apply_projection` finds it: the `Arrayterator` an earlier item of the projection left
+    there, else a fresh one (`wrap_arrayterator`) around the data -/
+def Base.arrayterator (b : Base) : View :=
+  match b.view with
+  | some v => v
+  | none => ⟨b.shape, b.data, b.shape.map Win.fresh⟩
+
 /-- `check_hyperslab(slice_, target.shape)` then `target.data = target[slice_].data`: more
     indices than dimensions or a slice outside its axis raise `ConstraintExpressionError`;
-    otherwise numpy's selection per axis (missing axes whole, stops clipped) -/
+    otherwise `Arrayterator.__getitem__` per axis (missing axes whole, stops clipped): on a variable named for the
+    first time that is numpy's selection `sel` (`sliceBase_fresh`); `target.shape` is the `Arrayterator`'s `shape`,
+    the values are what it reads from the underlying array -/
 def sliceBase (b : Base) (sl : List PSlice) : Except Exc Base :=
   if sl.length ≤ b.shape.length ∧ (List.zipWith validSl b.shape sl).all id then
-    let idx := List.zipWith sel b.shape (padSl b.shape.length sl)
-    .ok { b with shape := idx.map List.length, data := selND b.shape idx b.data, kind := .arr }
+    let v := b.arrayterator
+    let win := List.zipWith Win.get v.win (padSl b.shape.length sl)
+    .ok { b with shape := win.map Win.count, data := selND v.shape (List.zipWith Win.pos v.shape win) v.data,
+                 kind := .arr, view := some { v with win := win } }
   else .error .ceError
 
 /-! ### `apply_selection` -/
